@@ -437,7 +437,8 @@ func runC14(rec *vkit.Recorder, c *c14Case) []vkit.Violation {
 func genC14(t *rapid.T) *c14Case {
 	c := &c14Case{}
 	nj := rapid.IntRange(1, 2).Draw(t, "nJobs")
-	metrics := []string{"a_x", "a_y", "b_x", "c_z"}
+	// (names with colons are what recording rules and federation endpoints expose)
+	metrics := []string{"a_x", "a_y", "b_x", "c_z", "job:a_x:rate5m"}
 	for j := 0; j < nj; j++ {
 		var rules []c14Rule
 		nr := rapid.IntRange(0, 4).Draw(t, fmt.Sprintf("j%d-nRules", j))
